@@ -113,7 +113,7 @@ ENTRY_POINTS = {"PVLParser": ("parse",), "PVLDecoder": ("decode", "decode_simple
                 "PVLEncoder": ("encode",)}
 
 
-def rule_estate(repo, res, families=("PVLParser", "PVLDecoder", "PVLEncoder")):
+def rule_estate(repo, res, families=("PVLParser", "PVLDecoder", "PVLEncoder"), floor=0):
     """E-STATE: every instance attribute written outside __init__ in a method
     reachable from a per-call entry point is assigned a fresh value in the
     entry point, at its top level, before any other statement that calls into
@@ -175,7 +175,7 @@ def rule_estate(repo, res, families=("PVLParser", "PVLDecoder", "PVLEncoder")):
                                         f"the same instance",
                                         where=f"pvl/{repo.classes[c0].module.name}.py:{node0.lineno}",
                                         extra={"entry": f"{cname}.{entry}"}))
-    res.floor("instance attributes written on per-call paths", n_attrs, 2)
+    res.floor("instance attributes written on per-call paths", n_attrs, floor)
 
 
 def rule_alias(repo, res):
@@ -253,7 +253,7 @@ def rule_globals(repo, res, modules=("parser", "decoder", "encoder", "lexer", "t
                                 "every later use of the module/class", where=f"pvl/{mn}.py:{x.lineno}"))
             res.oblige("E-GLOBAL", f"{mn}.{fn.name} writes no module/class-level state nor a default argument", ok=not bad,
                        nontrivial=False)
-    res.floor("functions scanned for shared-state writes", n, 100)
+    res.floor("functions scanned for shared-state writes", n, 25)
 
 
 # ---------------------------------------------------------------- C08
